@@ -11,6 +11,9 @@ type FilterSpec struct {
 	Flag     uint32      `json:"flag"`
 	HostArch bool        `json:"host_arch"` // leave the architecture to the library (nil arch => GOARCH), as users do
 	Kind     string      `json:"kind,omitempty"`
+	// PreNNP: the goroutine that is about to call LoadFilter calls SetNoNewPrivs() first (on whatever thread it happens to
+	// run): the thread it starts on then has the bit, other threads do not
+	PreNNP bool `json:"pre_nnp,omitempty"`
 }
 
 // Probe is one raw system call.
